@@ -1502,6 +1502,27 @@ def render_harness():
                 if name in ("write_str", "write_char", "pad") and len(args) == 2:
                     self.out.append(self.render_arg(it, FmtArg("display", args[1])))
                     return Adt("std::result::Result", 0, [Tup([])])
+                if name == "debug_struct" and len(args) == 2:
+                    # the builder writes as it goes: `Name`, then ` { f: v` / `, f: v` per field, then ` }`
+                    self.out.append(self.render_arg(it, FmtArg("display", args[1])))
+                    return Opaque("std::fmt::DebugStruct", {"debug-struct"}, {"fields": 0})
+            if "fmt::DebugStruct" in path or "fmt::builders::DebugStruct" in path:
+                b = args[0]
+                st = it.read(b.cell, b.path) if isinstance(b, Ref) else b
+                if isinstance(st, Opaque) and "debug-struct" in st.tags:
+                    if name == "field" and len(args) == 3:
+                        nf = st.info.get("fields", 0)
+                        self.out.append((", " if nf else " { ") + self.render_arg(it, FmtArg("display", args[1])) + ": " + self.render_arg(it, FmtArg("debug", args[2])))
+                        if isinstance(b, Ref):
+                            it.write(b.cell, b.path, Opaque("std::fmt::DebugStruct", {"debug-struct"}, {"fields": nf + 1}))
+                        return b
+                    if name in ("finish", "finish_non_exhaustive") and len(args) == 1:
+                        nf = st.info.get("fields", 0)
+                        if name == "finish_non_exhaustive":
+                            self.out.append(", .. }" if nf else " { .. }")
+                        elif nf:
+                            self.out.append(" }")
+                        return Adt("std::result::Result", 0, [Tup([])])
             r = WriterOracles.on_call(self, it, fn, args, dest_ty, term, caller)
             if r is NotImplemented and ("fmt::" in path or "fmt::" in (fn.get("trait") or "")) and not path.startswith("dna_string::"):
                 self.bad.append("formatting call %s is not captured" % path)
@@ -1514,7 +1535,9 @@ def render_harness():
             if isinstance(v, Int):
                 t = [x for x in tags_of(v) if x.startswith("r:")]
                 if t:
-                    return "<%s>" % t[0]
+                    return ("'<%s>'" if a.kind == "debug" and v.kind == "char" else "<%s>") % t[0]
+                if v.kind == "bool" and v.is_conc():
+                    return "true" if v.val else "false"
             if isinstance(v, VecV) or (isinstance(v, Adt) and v.name.endswith("String")):
                 el = v.elems if isinstance(v, VecV) else (v.fields[0].elems if v.fields and isinstance(v.fields[0], VecV) else None)
                 if el is not None:
@@ -1522,8 +1545,12 @@ def render_harness():
                     for e in el:
                         t = [x for x in tags_of(e) if x.startswith("r:")] if isinstance(e, Int) else []
                         out += "<%s>" % t[0] if t else "\u0001<untagged %r>" % (e,)
+                    if a.kind == "debug":
+                        # Debug of a String / str is the quoted text (letters need no escape), of a Vec the bracketed list
+                        is_text = isinstance(v, Adt) or all(isinstance(e, Int) and e.kind == "char" for e in el)
+                        return '"%s"' % out if is_text else "\u0001<Debug of a vector>"
                     return out
-            return WriterOracles.render_arg(self, it, a)
+            return WriterOracles.render_arg(self, it, FmtArg(a.kind, v) if isinstance(v, Int) else a)
 
     return H
 
@@ -1896,7 +1923,7 @@ def slice_fmt_faithful(F, trait, lengths=(3, 255, 256, 300)):
                 res = (None, h.bad[0] if h.bad else text[:100])
                 break
             if text != want:
-                res = (False, "a view of %d bases is written as %r" % (ln, re.sub(r"<r:[^>]*>", "N", text)[:80]))
+                res = (False, "a view of %d bases is written as %r" % (ln, re.sub(r"<r:[^>]*>", "N", text)[:80]), re.sub(r"<r:[^>]*>", "A", text))
                 break
     except (Unsupported, Undecided, Diverge) as e:
         res = (None, str(e))
